@@ -19,6 +19,9 @@ func wireCheckGM(c2s, s2c []byte, cr, sr *endRes, payC, payS []byte, p *benignPa
 	if p.SrvChain == 1 {
 		encName = "srvint-enc"
 	}
+	if p.VHost {
+		encName = "srv2-enc"
+	}
 	sess, err := reftls.Decode(c2s, s2c, reftls.DecodeOpts{KeyLog: kl, EncD: pki.D(encName)})
 	if err != nil {
 		return "independent decode of the captured session failed: " + err.Error()
